@@ -9,3 +9,5 @@ import VibeProof.Props.C30
 #print axioms VibeProof.C30.C30_history_independent_boundKey
 #print axioms VibeProof.C30.C30_full_counterexample
 #print axioms VibeProof.C30.C30_bool_binds_as_bool
+#print axioms VibeProof.C30.C30_int_roundtrip
+#print axioms VibeProof.C30.C30_smallint_out_of_range
